@@ -1,6 +1,6 @@
 (* C02 — Task group errors: siblings cancelled, every exception surfaces exactly once.
    This file contains only statements closed by `exact` and their Print Assumptions. *)
-From AV Require Import Base Machine GroupInv GroupThmsPure GroupThms GroupThms4 GroupThms6 GroupThms7.
+From AV Require Import Base Machine GroupInv GroupThmsPure GroupThms GroupThms4 GroupThms6 GroupThms7 GroupThms10 GroupThms12.
 From Coq Require Import Permutation.
 
 Theorem C02_group_excs_exactly_member_errors : forall s g, reach s ->
@@ -56,3 +56,10 @@ Theorem C02_split_partitions_leaves : forall e : exn,
   (forall x, In x r -> is_anyio_cancel x = false).
 Proof. exact split_exn_partitions_leaves. Qed.
 Print Assumptions C02_split_partitions_leaves.
+
+(* under the `async with` discipline (GroupThms10.okop, see props/C01.v) every source tag occurs once: each member
+   and the body contribute at most one exception.  False without it: GroupThms7.body_tag_not_unique_under_double_exit *)
+Theorem C02_group_excs_nodup_tags : forall ops g, disciplined ops = true ->
+  NoDup (map fst (g_excs (groups (final step init ops) g))).
+Proof. exact group_excs_nodup_tags_ops. Qed.
+Print Assumptions C02_group_excs_nodup_tags.
